@@ -251,6 +251,11 @@ def make_state(lib, tm, seed, settle=0, vel_scale=1.0, pos_scale=1.0, forces=Tru
     s[f] = np.array([d.time]) if f == 'time' else np.array(getattr(d, f), dtype=np.float64 if f != 'eq_active' else np.uint8).copy()
   if not np.all(np.isfinite(s['qpos'])) or not np.all(np.isfinite(s['qvel'])):
     return None
+  # moderate states only (DESIGN 3.1): a settling run that blew up (fluid drag, stiff actuators) is not a test input
+  if s['qvel'].size and (np.max(np.abs(s['qvel'])) > 50 or np.max(np.abs(s['qpos'])) > 50):
+    return None
+  if s['act'].size and np.max(np.abs(s['act'])) > 50:
+    return None
   return s
 
 
